@@ -44,10 +44,11 @@ type half struct {
 	limit   int   // 0 = unbounded, else back-pressure above this many buffered bytes
 
 	// plan
-	readCap     int // >0: a Read returns at most this many bytes
-	byteAtATime int // the first n bytes are returned one per Read
-	coalesce    bool
-	stalled     bool // deliver nothing further to the reader
+	readCap     int   // >0: a Read returns at most this many bytes
+	byteAtATime int   // the first n bytes are returned one per Read
+	preserve    bool  // a Read never crosses a Write boundary
+	chunks      []int // remaining lengths of the queued writes (only when preserve)
+	stalled     bool  // deliver nothing further to the reader
 	holdWrite   map[int]chan struct{}
 	cutAfter    int64 // >0: cut the connection once this many bytes were written
 
@@ -187,11 +188,23 @@ func (c *MemConn) Read(p []byte) (int, error) {
 			} else if h.readCap > 0 && n > h.readCap {
 				n = h.readCap
 			}
+			if h.preserve && len(h.chunks) > 0 && n > h.chunks[0] {
+				n = h.chunks[0]
+			}
 			if n > len(p) {
 				n = len(p)
 			}
 			copy(p, h.buf[:n])
 			h.buf = h.buf[n:]
+			if len(h.chunks) > 0 {
+				h.chunks[0] -= n
+				for len(h.chunks) > 0 && h.chunks[0] <= 0 {
+					if len(h.chunks) > 1 {
+						h.chunks[1] += h.chunks[0]
+					}
+					h.chunks = h.chunks[1:]
+				}
+			}
 			if len(h.buf) == 0 {
 				h.buf = nil
 			}
@@ -262,6 +275,9 @@ func (c *MemConn) Write(p []byte) (int, error) {
 				}
 			}
 			h.buf = append(h.buf, p[:room]...)
+			if h.preserve && room > 0 {
+				h.chunks = append(h.chunks, room)
+			}
 			if h.capture != nil {
 				h.capture.Write(p[:room])
 			}
@@ -363,6 +379,13 @@ func (c *MemConn) SetReadPlan(byteAtATime, readCap int) {
 	c.rd.mu.Unlock()
 }
 
+// PreserveWrites makes reads of this end stop at the peer's write boundaries.
+func (c *MemConn) PreserveWrites(on bool) {
+	c.rd.mu.Lock()
+	c.rd.preserve = on
+	c.rd.mu.Unlock()
+}
+
 // StallIncoming stops (or resumes) delivery toward this end.
 func (c *MemConn) StallIncoming(on bool) {
 	c.rd.mu.Lock()
@@ -440,6 +463,7 @@ type MemListener struct {
 	closed  bool
 	addr    net.Addr
 	Limit   int // per-direction buffer bound of accepted connections
+	OnDial  func(client, server *MemConn)
 	nextID  int
 	Dialled []*MemConn // client ends, in dial order
 }
@@ -492,6 +516,9 @@ func (l *MemListener) Dial() (*MemConn, error) {
 	c, s := Pipe(ca, l.addr, l.Limit)
 	l.queue = append(l.queue, s)
 	l.Dialled = append(l.Dialled, c)
+	if l.OnDial != nil {
+		l.OnDial(c, s)
+	}
 	close(l.wake)
 	l.wake = make(chan struct{})
 	return c, nil
